@@ -442,6 +442,7 @@ type vWire struct {
 	RPC    *pb.RPC
 	Size   int
 	Opened time.Time // when the stream it arrived on was accepted
+	Idx    int       // index of the frame on its stream (0 = the hello packet), empty frames included
 }
 
 type vPuppet struct {
@@ -528,6 +529,7 @@ func (p *vPuppet) handle(s network.Stream) {
 		p.inEnded++
 		p.mu.Unlock()
 	}()
+	idx := -1
 	for {
 		p.mu.Lock()
 		st, ch := p.stalled, p.unstall
@@ -550,6 +552,7 @@ func (p *vPuppet) handle(s network.Stream) {
 			}
 			return
 		}
+		idx++
 		if len(frame) == 0 {
 			p.mu.Lock()
 			p.emptyFrames++
@@ -562,7 +565,7 @@ func (p *vPuppet) handle(s network.Stream) {
 			continue
 		}
 		p.mu.Lock()
-		p.recv = append(p.recv, vWire{T: time.Now(), From: from, RPC: rpc, Size: len(frame), Opened: opened})
+		p.recv = append(p.recv, vWire{T: time.Now(), From: from, RPC: rpc, Size: len(frame), Opened: opened, Idx: idx})
 		cb := p.onRPC
 		p.mu.Unlock()
 		if cb != nil {
